@@ -51,7 +51,8 @@ class SequenceOfOrSetOfPayloadDecoder(object):
         asn1Value.clear()
 
         for pyValue in pyObject:
-            asn1Value.append(decodeFun(pyValue, asn1Spec.componentType), **options)
+            asn1Value.append(
+                decodeFun(pyValue, asn1Spec.componentType, **options))
 
         return asn1Value
 
